@@ -412,3 +412,59 @@ package cose
 //@         ==> err != nil && Is(err, ErrAlgorithmMismatch) && epoch() == old(epoch())
 //@   ensures precheck [C20]: (m == nil || old(m.Payload) == nil || old(len(m.Signature)) > 0) ==> err != nil && epoch() == old(epoch())
 //@   modifies frame [C18]: m.Signature, m.Headers.Protected, mapof(asmap(m.Headers.Protected))
+
+// ===================================================================
+// sign.go: Signature.Sign / Verify  (C01, C02, C03, C04, C11, C20)
+// ===================================================================
+
+//@ spec bodyOK(protected []byte) Bool = len(protected) > 0 && b_major(bytes(protected)) == 2
+
+//@ func (*Signature).Verify
+//@   requires verifier_nonnil: verifier != nil
+//@   ensures once [C03, C04, C11, C20]: vepoch() == old(vepoch()) || vepoch() == old(vepoch()) + 1
+//@   ensures sound [C03, C11, C20]: result == nil ==> s != nil && payload != nil && len(s.Signature) > 0 && bodyOK(protected) && vepoch() == old(vepoch()) + 1
+//@   ensures verbatim [C02, C03, C11, C20]: vepoch() == old(vepoch()) + 1 ==> s != nil
+//@         && result == verifier_verify(verifier, old(SigN(bytes(protected), ProtBytes(s.Headers), external, payload)), old(bytes(s.Signature)))
+//@   ensures gate [C04]: s != nil && int64Labels(asmap(s.Headers.Protected)) && vepoch() != old(vepoch())
+//@         ==> algAgrees(s.Headers.Protected, verifier_alg(verifier)) && (algPresent(s.Headers.Protected) || len(external) > 0)
+//@   ensures mismatch [C04]: s != nil && payload != nil && len(s.Signature) > 0 && bodyOK(protected) && int64Labels(asmap(s.Headers.Protected)) && algIntMismatch(s.Headers.Protected, verifier_alg(verifier))
+//@         ==> result != nil && Is(result, ErrAlgorithmMismatch)
+//@   ensures precheck [C03, C11]: (s == nil || payload == nil || len(s.Signature) == 0 || !bodyOK(protected)) ==> result != nil && vepoch() == old(vepoch())
+//@   modifies frame [C18]: nothing
+
+//@ func (*Signature).Sign
+//@   requires signer_nonnil: signer != nil
+//@   ensures once [C04, C11, C20]: epoch() == old(epoch()) || epoch() == old(epoch()) + 1
+//@   ensures ok [C01, C02, C11, C20]: err == nil ==> s != nil && epoch() == old(epoch()) + 1 && payload != nil && bodyOK(protected)
+//@         && bytes(s.Signature) == signer_sign_bytes(signer, rand, withold(s.Signature, SigN(bytes(protected), ProtBytes(s.Headers), external, payload)), old(epoch()))
+//@   ensures verbatim [C02, C11, C20]: epoch() == old(epoch()) + 1 ==> s != nil
+//@         && err == signer_sign_err(signer, rand, withold(s.Signature, SigN(bytes(protected), ProtBytes(s.Headers), external, payload)), old(epoch()))
+//@   ensures err_slot [C11, C20]: s != nil && err != nil ==> s.Signature == old(s.Signature)
+//@   ensures kept [C11, C20]: s != nil ==> s.Headers.RawProtected == old(s.Headers.RawProtected)
+//@         && s.Headers.RawUnprotected == old(s.Headers.RawUnprotected) && s.Headers.Unprotected == old(s.Headers.Unprotected)
+//@   ensures gate [C04]: s != nil && int64Labels(asmap(old(s.Headers.Protected))) && epoch() != old(epoch())
+//@         ==> algAgrees(s.Headers.Protected, signer_alg(signer)) && (algPresent(s.Headers.Protected) || len(external) > 0)
+//@   ensures mismatch [C04]: s != nil && payload != nil && old(len(s.Signature)) == 0 && bodyOK(protected) && int64Labels(asmap(old(s.Headers.Protected))) && old(algIntMismatch(s.Headers.Protected, signer_alg(signer)))
+//@         ==> err != nil && Is(err, ErrAlgorithmMismatch) && epoch() == old(epoch())
+//@   ensures precheck [C11, C20]: (s == nil || payload == nil || old(len(s.Signature)) > 0 || !bodyOK(protected)) ==> err != nil && epoch() == old(epoch())
+//@   modifies frame [C18]: s.Signature, s.Headers.Protected, mapof(asmap(s.Headers.Protected))
+
+// ===================================================================
+// sign.go: COSE_Sign  (C11, C01, C20)
+// ===================================================================
+
+// signature i of m verifies under verifier v over signer i's own Sig_structure
+//@ spec sigVerified(m *SignMessage, i Int, v Verifier, external []byte) Bool = m.Signatures[i] != nil && len(m.Signatures[i].Signature) > 0
+//@       && verifier_verify(v, SigN(ProtBytes(m.Headers), ProtBytes(m.Signatures[i].Headers), external, m.Payload), bytes(m.Signatures[i].Signature)) == nil
+
+//@ func (*SignMessage).Verify
+//@   requires verifiers_nonnil: forall i Int :: 0 <= i && i < len(verifiers) ==> verifiers[i] != nil
+//@   ensures sound [C11, C03, C20]: result == nil ==> m != nil && m.Payload != nil && len(m.Signatures) > 0 && len(m.Signatures) == len(verifiers)
+//@         && vepoch() == old(vepoch()) + len(m.Signatures)
+//@         && (forall i Int :: 0 <= i && i < len(m.Signatures) ==> sigVerified(m, i, verifiers[i], external))
+//@   ensures count [C11]: m != nil && len(m.Signatures) != len(verifiers) ==> result != nil && vepoch() == old(vepoch())
+//@   ensures precheck [C11]: (m == nil || m.Payload == nil || len(m.Signatures) == 0) ==> result != nil && vepoch() == old(vepoch())
+//@   modifies frame [C18]: nothing
+//@   loop 1 invariant bounds [C11]: 0 <= idx && idx <= len(m.Signatures) && len(m.Signatures) == len(verifiers) && m.Payload != nil
+//@   loop 1 invariant counted [C11]: vepoch() == old(vepoch()) + idx
+//@   loop 1 invariant prefix_ok [C11]: forall j Int :: 0 <= j && j < idx ==> sigVerified(m, j, verifiers[j], external)
